@@ -463,26 +463,57 @@ func runC14(c *Ctx) {
 			return
 		}
 		c.Analysed(fnName(clr))
-		ranged := map[string]bool{}
-		instrs(clr, func(in ssa.Instruction) {
-			if r, ok := in.(*ssa.Range); ok {
-				if u, ok := r.X.(*ssa.UnOp); ok {
-					if g, ok := u.X.(*ssa.Global); ok {
-						ranged[g.Name()] = true
-					}
+		// replayed with exactly one entry in each registry (map ranges folded), same-package helpers entered: every
+		// path calls ResetEntry exactly once per registry, with the key that registry's range produced
+		regOf := func(v ssa.Value) string {
+			if u, ok := v.(*ssa.UnOp); ok && u.Op == token.MUL {
+				if g, ok := u.X.(*ssa.Global); ok && strings.HasPrefix(g.Name(), "Target") && strings.HasSuffix(g.Name(), "Values") {
+					return g.Name()
 				}
 			}
-		})
-		for _, g := range []string{"TargetBoolValues", "TargetIntValues", "TargetStrValues"} {
-			c.Check(ranged[g], "C14.meta-init", fnName(clr), "ranges over "+g, P.Pos(clr.Pos()), "")
+			return ""
 		}
-		nReset := 0
-		for _, ci := range callsIn(clr) {
-			if staticCallee(ci.Common()) == re {
-				nReset++
+		at := &Atoms{Class: func(e *PPA, st *State, rv RV) string {
+			if g := regOf(e.Resolve(st, rv).V); g != "" {
+				return g
 			}
+			return ""
+		}, Int: map[string]int64{"len(TargetBoolValues)": 1, "len(TargetIntValues)": 1, "len(TargetStrValues)": 1}}
+		isRE := lbl("call:" + fnName(re))
+		e := &PPA{Cond: at.Cond, MaxVisits: 3, Watch: func(ev *Ev) bool { return isRE(ev) }}
+		e.Run(clr)
+		c.Paths += len(e.Paths)
+		n := 0
+		for i := range e.Paths {
+			p := &e.Paths[i]
+			if p.End != "return" {
+				continue
+			}
+			n++
+			got := map[string]int{}
+			other := 0
+			for j := range p.Trace {
+				ev := &p.Trace[j]
+				g := ""
+				if len(ev.Args) == 2 {
+					if ex, ok := ev.Args[1].V.(*ssa.Extract); ok && ex.Index == 1 {
+						if nx, ok := ex.Tuple.(*ssa.Next); ok {
+							if rg, ok := nx.Iter.(*ssa.Range); ok {
+								g = regOf(frameResolve(RV{ev.Args[1].F, rg.X}).V)
+							}
+						}
+					}
+				}
+				if g == "" {
+					other++
+				} else {
+					got[g]++
+				}
+			}
+			ok := other == 0 && got["TargetBoolValues"] == 1 && got["TargetIntValues"] == 1 && got["TargetStrValues"] == 1
+			c.Check(ok, "C14.meta-init", fnName(clr), "one entry per registry: ResetEntry is called once with the key of each of the bool, int and string registries", P.Pos(clr.Pos()), fmt.Sprintf("calls per registry %v, %d with another key; path: %s", got, other, p.String()))
 		}
-		c.Check(nReset == 3, "C14.meta-init", fnName(clr), "ResetEntry called in each of the three loops", P.Pos(clr.Pos()), fmt.Sprintf("%d call sites", nReset))
+		c.Floor("C14.meta-init/clear-paths", n, 1)
 		c.Analysed(fnName(re))
 		kinds := map[string]bool{}
 		for _, ci := range callsIn(re) {
